@@ -10,6 +10,12 @@
   (machine-checked refutations in Lemmas/ReevalCounterexamples.lean, namespace `Cex`).  The driver reports
   `wf` and `idsNodup` for every translated condition, and the harness requires both to be true, so the
   hypotheses hold on everything the correspondence check exercises.
+
+  ORDER (second version of the model).  The re-evaluator visits a dictionary item `k: v` value-first and a formatted
+  value `{e:spec}` specification-first, Python the other way round: in general the recorded log is a PERMUTATION of
+  Python's (`C06_recomputed_values_are_pythons`); it is Python's log itself when the condition has no keyed dictionary
+  item and no format specification outside comprehension scopes (`Expr.orderFaithful`,
+  `C06_recomputed_in_pythons_order`).  That the difference is real: `C07_dict_items_are_visited_value_first`.
 -/
 import IcontractModel.Spec.PyEval
 import IcontractModel.Represent
@@ -23,13 +29,28 @@ namespace Icontract.Ex
 /-- **The re-evaluator computes, node by node, exactly what Python computes.**  For every well-formed
 expression with distinct node ids, every `ops` and every environment in which Python evaluates the
 condition to `v` with log `P`: the re-evaluation succeeds with the same value, and what it records for
-the nodes outside comprehension scopes is exactly Python's log - same nodes, same values, same order. -/
+the nodes outside comprehension scopes is exactly Python's log as a multiset - same nodes, same values, each as often.
+(all forms: same value, and the recorded values outside comprehension scopes are exactly Python's (as a multiset);
+the ORDER may differ: a dictionary item `k: v` is visited value-first, a formatted value specification-first.) -/
 theorem C06_recomputed_values_are_pythons (ops : Ops) (env : Env) (e : Expr) (v : Val) (P : Log)
     (hwf : e.wf = true)
     (hid : (allIds e).Nodup) (h : pyEval ops env e = .ok (v, P)) :
     (visit ops env.builtins (Tbl.ofNames env.names) e).out = .ok (some v) ∧
+    ((visit ops env.builtins (Tbl.ofNames env.names) e).log.filter (fun p => !(innerIds e).contains p.1)).Perm P := by
+  have hv := visit_py ops env (fun i => !(innerIds e).contains i) false e v P hwf (fun hs => by cases hs) ?_ ?_ h
+  · exact ⟨hv.1, hv.2.perm⟩
+  · intro i ho
+    simpa using outer_not_inner hid ho
+  · intro i hi
+    simpa using hi
+
+/-- without a keyed dictionary item and without a format specification even the ORDER is Python's -/
+theorem C06_recomputed_in_pythons_order (ops : Ops) (env : Env) (e : Expr) (v : Val) (P : Log)
+    (hwf : e.wf = true) (hof : e.orderFaithful = true)
+    (hid : (allIds e).Nodup) (h : pyEval ops env e = .ok (v, P)) :
     (visit ops env.builtins (Tbl.ofNames env.names) e).log.filter (fun p => !(innerIds e).contains p.1) = P := by
-  refine visit_py ops env (fun i => !(innerIds e).contains i) e v P hwf ?_ ?_ h
+  have hv := visit_py ops env (fun i => !(innerIds e).contains i) true e v P hwf (fun _ => hof) ?_ ?_ h
+  · exact hv.2.eq
   · intro i ho
     simpa using outer_not_inner hid ho
   · intro i hi
@@ -42,7 +63,7 @@ theorem C06_every_recorded_value_is_pythons (ops : Ops) (env : Env) (e : Expr) (
     (hid : (allIds e).Nodup) (h : pyEval ops env e = .ok (v, P)) :
     ∀ p ∈ (visit ops env.builtins (Tbl.ofNames env.names) e).log, (innerIds e).contains p.1 = false → p ∈ P := by
   intro p hp hc
-  rw [← (C06_recomputed_values_are_pythons ops env e v P hwf hid h).2]
+  rw [← (C06_recomputed_values_are_pythons ops env e v P hwf hid h).2.mem_iff]
   exact List.mem_filter.mpr ⟨hp, by rw [hc]; rfl⟩
 
 /-- ... and everything Python evaluated outside comprehension scopes is recorded (completeness) -/
@@ -51,8 +72,54 @@ theorem C06_everything_python_evaluated_is_recorded (ops : Ops) (env : Env) (e :
     (hid : (allIds e).Nodup) (h : pyEval ops env e = .ok (v, P)) :
     ∀ p ∈ P, p ∈ (visit ops env.builtins (Tbl.ofNames env.names) e).log := by
   intro p hp
-  rw [← (C06_recomputed_values_are_pythons ops env e v P hwf hid h).2] at hp
+  rw [← (C06_recomputed_values_are_pythons ops env e v P hwf hid h).2.mem_iff] at hp
   exact (List.mem_filter.mp hp).1
+
+/-- non-vacuity for the forms of the second version: the condition
+`(g((1, *xs), xs[1:n], *xs, k=n, **d), f"v={n!r}")` - a display with a starred element, a call with a starred argument,
+a keyword and `**`, a slice, an f-string with a formatted value - is well-formed, has distinct ids, and Python
+evaluates it (with the concrete `Cex.ops0`) -/
+def exV2 : Expr :=
+  .coll 0 .tuple [
+    .callkw 1 (.name 2 "g")
+      [.coll 3 .tuple [.const 4 (.int 1), .starred 5 (.name 6 "xs")],
+       .subscr 7 (.name 8 "xs") (.slice 9 (some (.const 10 (.int 1))) (some (.name 11 "n")) none),
+       .starred 12 (.name 13 "xs")]
+      [(some "k", .name 14 "n"), (none, .name 15 "d")],
+    .fstring 16 [.const 17 (.str "v="), .fvalue 18 (.name 19 "n") .r none]]
+
+def envV2 : Env :=
+  ⟨[("xs", .list [.int 7, .int 8]), ("n", .int 2), ("d", .dict [.str "z"] [.int 3])], [("g", .fn "g")]⟩
+
+example : exV2.wf = true := by rfl
+example : exV2.orderFaithful = true := by rfl
+example : (allIds exV2).Nodup := by decide
+example : pyEval Cex.ops0 envV2 exV2 = .ok (.tuple [.fn "g", .str "v=2"],
+    [(2, .fn "g"), (4, .int 1), (6, .list [.int 7, .int 8]), (3, .tuple [.int 1, .int 7, .int 8]),
+     (8, .list [.int 7, .int 8]), (10, .int 1), (11, .int 2), (9, .slice (.int 1) (.int 2) .none),
+     (7, .list [.int 7, .int 8]), (13, .list [.int 7, .int 8]), (14, .int 2), (15, .dict [.str "z"] [.int 3]),
+     (1, .fn "g"), (17, .str "v="), (19, .int 2), (16, .str "v=2"), (0, .tuple [.fn "g", .str "v=2"])]) := by rfl
+/-- ... and the re-evaluation records the same log -/
+example : (visit Cex.ops0 envV2.builtins (Tbl.ofNames envV2.names) exV2).log =
+    [(2, .fn "g"), (4, .int 1), (6, .list [.int 7, .int 8]), (3, .tuple [.int 1, .int 7, .int 8]),
+     (8, .list [.int 7, .int 8]), (10, .int 1), (11, .int 2), (9, .slice (.int 1) (.int 2) .none),
+     (7, .list [.int 7, .int 8]), (13, .list [.int 7, .int 8]), (14, .int 2), (15, .dict [.str "z"] [.int 3]),
+     (1, .fn "g"), (17, .str "v="), (19, .int 2), (16, .str "v=2"), (0, .tuple [.fn "g", .str "v=2"])] := by rfl
+
+/-- a keyed dictionary item and a format specification (not order-faithful): still well-formed and evaluated -/
+def exV2' : Expr :=
+  .dict 0 [(some (.name 1 "n"), .fstring 2 [.fvalue 3 (.name 4 "n") .none (some (.fstring 5 [.const 6 (.str "d")]))]),
+           (none, .name 7 "d")]
+
+example : exV2'.wf = true := by rfl
+example : exV2'.orderFaithful = false := by rfl
+example : (allIds exV2').Nodup := by decide
+example : pyEval Cex.ops0 envV2 exV2' = .ok (.dict [.int 2, .str "z"] [.str "2", .int 3],
+    [(1, .int 2), (4, .int 2), (6, .str "d"), (5, .str "d"), (2, .str "2"), (7, .dict [.str "z"] [.int 3]),
+     (0, .dict [.int 2, .str "z"] [.str "2", .int 3])]) := by rfl
+example : (visit Cex.ops0 envV2.builtins (Tbl.ofNames envV2.names) exV2').log =
+    [(6, .str "d"), (5, .str "d"), (4, .int 2), (2, .str "2"), (1, .int 2), (7, .dict [.str "z"] [.int 3]),
+     (0, .dict [.int 2, .str "z"] [.str "2", .int 3])] := by rfl
 
 /-- a line is produced only from a recorded value: names / attributes whose value is a class, function,
 method, module or builtin get none, builtin names get none -/
@@ -60,6 +127,13 @@ theorem C06_lines_come_from_recorded_values (text : Nat → String) (isLookupNam
     (k : String) (x : Val) (h : (k, x) ∈ collectLines text isLookupName R [] e) :
     ∃ i, k = text i ∧ (i, x) ∈ R :=
   collectLines_from text isLookupName R e [] (fun _ _ hm => by cases hm) k x h
+
+/-- an f-string gets at most ONE line, for the whole string: its internals are never listed
+(`visit_JoinedStr` of the representation visitor does not descend) -/
+theorem C06_fstring_internals_get_no_line (text : Nat → String) (isLookupName : String → Bool) (R : Log)
+    (i : Nat) (parts : List Expr) (k : String) (x : Val)
+    (h : (k, x) ∈ collectLines text isLookupName R [] (.fstring i parts)) : k = text i ∧ recorded R i = some x :=
+  collectLines_fstring text isLookupName R i parts k x h
 
 /-- **Arguments shadow closure variables, which shadow globals**: the re-evaluator's name table, merged from the
 look-ups "first one wins", resolves every name exactly as Python's scoping does - whatever the look-ups contain
